@@ -263,6 +263,7 @@ var c08Shapes = [][8]uint16{
 var c08Near = []string{"::", "::1", "1::", "1::8", "1:2:3:4:5:6:7:8", "1:2:3:4:5:6:7", "1:2:3:4:5:6:7:8:9", ":1", "1:", ":::", "::1::", "1::2::3", "1:::2", "12345::", "::12345", "::g", "g::", "::1.2.3.4", "::1.2.3", "::1.2.3.4.5",
 	"::01.2.3.4", "::1.02.3.4", "::1.2.3.256", "::1.2.3.4:5", "1:2:3:4:5:6:1.2.3.4", "1:2:3:4:5:6:7:1.2.3.4", "1:2:3:4:5:1.2.3.4", "::1.2.3.", "::.1.2.3", "::1..2.3", "1.2.3.4", "::ffff:1.2.3.4", "::FFFF:1.2.3.4", "0:0:0:0:0:0:0:0",
 	"0:0:0:0:0:0:0:0:", "::0:0:0:0:0:0:0", "::0:0:0:0:0:0:0:0", "1:2:3:4:5:6:7::", "::2:3:4:5:6:7:8", "1:2:3:4::5:6:7:8", "1:2:3::5:6:7:8", "1::8:", "", " ", "::%31", "%3A%3A1", "::1%", "::1%25eth0", "::x", "0x1::", "::-1", "::+1", "1:2:3:4:5:6:7:8.", "::1.2.3.4.", "::1.2.3.04",
+	"1:2:3:4:5:6:1.2.3.4.5", "1:2:3:4:5:6:1.2.3.4.", "1:2:3:4:5:6:1.2.3.4:5", "1:2:3:4:5:6:1.2.3.4:", "1:2:3:4:5:6:7:8:", "1:2:3:4:5:6:7:8.", "1:2:3:4:5:6:7:8.9", "1:2:3:4:5:6:7:8:9:a", "1:2:3:4:5:6:255.255.255.255.255", "1:2:3:4:5:6:7:1.2", "::1.2.3.4.5.6.7.8", "1:2:3:4:5:6:7:8::9",
 	"::00000", "::0000", "0::0", "0:0::0:0", "::1\t", "::a:b:c:d:e:f:1", "a:b:c:d:e:f::1.2.3.4", "::a.2.3.4", "::1.a.3.4", "1:2:3:4:5:6:7:8::", "::1.2", "::255.255.255.255", "::256.1.1.1", "::1.2.3.4.5.6"}
 
 func Gen08(t *rapid.T) Case08 {
@@ -327,7 +328,10 @@ func Gen08(t *rapid.T) Case08 {
 		}
 		inner = renderIPv6(t, v)
 		pos := rapid.IntRange(0, len(inner)).Draw(t, "pos")
-		ins := gen.Pick(t, "ins", []string{":", "::", "0", "00000", "g", ".", ".1", "1.2.3.4", "%", "]", "[", "ffff:", ":0"})
+		if rapid.IntRange(0, 2).Draw(t, "atEnd") == 0 {
+			pos = len(inner) // appended at the very end: one piece / part too many, trailing separators
+		}
+		ins := gen.Pick(t, "ins", []string{":", "::", "0", "00000", "g", ".", ".1", "1.2.3.4", "%", "]", "[", "ffff:", ":0", ".5", ":9", ":1.2.3.4", ".255.255", "::1"})
 		if rapid.IntRange(0, 2).Draw(t, "del") == 0 && pos < len(inner) {
 			inner = inner[:pos] + inner[pos+1:]
 		} else {
